@@ -561,9 +561,12 @@ func main() {
 		case i%3 == 2:
 			requestCase(r, w, baseWorld(keys))
 		case i%9 == 4:
-			helperCase(r, w, baseWorld(keys), bump)
+			helperCase(r, w, baseWorld(keys), bump, false)
 		default:
 			assertionCase(r, w, baseWorld(keys), bump)
+		}
+		if i%12 == 7 { // assertion-option stratum: helpers asked for a delegated subject / custom claims x every kind of subject check
+			helperCase(r, w, baseWorld(keys), bump, true)
 		}
 	}
 	helperSweep(r, w, baseWorld(keys), bump)
@@ -573,7 +576,9 @@ func main() {
 			"tampered header/payload/signature, alg none / HS256, malformed}; entries VerifyJWTAssertion, ClientJWTAuth, AuthorizePrivateJWTKey, JWTProfile handler, " +
 			"ParseRequestObject, Authorize (stub AuthorizeValidator), the real routers; helper-built assertions: every client helper path that builds (and sends) an assertion, " +
 			"as long-lived instances called repeatedly during the run and once more >= 2.6 s after their first call, each call's assertion captured at the wire and " +
-			"presented to verifiers with max age 0 / 2 s ... 2 h. " +
+			"presented to verifiers with max age 0 / 2 s ... 2 h; the helpers that take assertion options (oidc.NewJWTProfileAssertion family) are called with " +
+			"JWTProfileDelegatedSubject (user / other client / near-miss / self / empty) and JWTProfileCustomClaim, against verifiers with the default, an accept-all or a " +
+			"one-subject check configured by 0-3 op.SubjectCheck options, field assignment or struct literal. " +
 			"Non-trivial = model path class != 0 (token got past the shape check); distinct = distinct (input hash, path class).",
 		Extra: extra,
 	})
@@ -602,10 +607,27 @@ type vbuild struct {
 	ctor string // storage | keyset | literal
 	sub  string // default | any | only | nil
 	only string // the one subject an "only" check accepts
-	via  int    // 0: the plainest way (no option for the default, option otherwise); 1: op.SubjectCheck(f) also for the default / a typed nil func variable; 2: v.CheckSubject = f afterwards
+	via  int    // 0: the plainest way (no option for the default, option otherwise); 1: op.SubjectCheck(f) also for the default / a typed nil func variable; 2: v.CheckSubject = f afterwards; 3: SEVERAL op.SubjectCheck options, the one for `sub` last
+	pre  []string // via 3: the checks of the options passed before it: default | any | nil | only:<subject>
 }
 
-func (b vbuild) key() string { return fmt.Sprintf("%s/%s/%s/%d", b.ctor, b.sub, b.only, b.via) }
+func (b vbuild) key() string {
+	return fmt.Sprintf("%s/%s/%s/%d/%s", b.ctor, b.sub, b.only, b.via, strings.Join(b.pre, ","))
+}
+
+// preChecks: what the SubjectCheck options passed BEFORE the effective one check (via 3)
+func preChecks(r drv.Rand, vb *vbuild) {
+	vb.pre = nil
+	if vb.via != 3 || vb.ctor == "literal" {
+		return
+	}
+	for k := 1 + r.IntN(2); k > 0; k-- {
+		vb.pre = append(vb.pre, drv.Pick(r, []string{"default", "default", "any", "any", "nil", "only:someone", "only:c-alpha", "only:never-a-subject"}))
+	}
+}
+
+// optioned: the subject check gets there through op.SubjectCheck options (constructor call)
+func (b vbuild) optioned() bool { return b.ctor != "literal" && b.via != 2 }
 
 var stdBuild = vbuild{ctor: "storage", sub: "default"}
 
@@ -895,10 +917,28 @@ func runAssertion(entry, tok string, st *store, v *op.JWTProfileVerifier) (obs s
 	return
 }
 
+func subTerm(sub, only string) string {
+	if sub == "only" {
+		return emit.Ctor("SubOnly", emit.Str(only))
+	}
+	return map[string]string{"default": "SubIsIssuer", "any": "SubAny", "nil": "SubNil"}[sub]
+}
+
 func vTerm(issuer string, vs vset, vb vbuild) string {
-	sc := map[string]string{"default": "SubIsIssuer", "any": "SubAny", "nil": "SubNil"}[vb.sub]
-	if vb.sub == "only" {
-		sc = emit.Ctor("SubOnly", emit.Str(vb.only))
+	sc := subTerm(vb.sub, vb.only)
+	if vb.optioned() { // built by a constructor call: the model evaluates the option list as passed
+		var opts []string
+		for _, p := range vb.pre {
+			if strings.HasPrefix(p, "only:") {
+				opts = append(opts, subTerm("only", strings.TrimPrefix(p, "only:")))
+			} else {
+				opts = append(opts, subTerm(p, ""))
+			}
+		}
+		if vb.via != 0 || vb.sub != "default" {
+			opts = append(opts, sc)
+		}
+		sc = emit.Ctor("subject_options", emit.List(opts))
 	}
 	ct := map[string]string{"storage": "CtorStorage", "keyset": "CtorKeySet", "literal": "CtorLiteral"}[vb.ctor]
 	return emit.Ctor("mkV", emit.Str(issuer), emit.Z(int64(vs.maxAge)), emit.Z(int64(vs.offset)), sc, ct)
@@ -921,23 +961,27 @@ func (k *issuerKeySet) VerifySignature(ctx context.Context, jws *jose.JSONWebSig
 	return jws.Verify(key)
 }
 
-// newVerifier builds the verifier the way vb says.
-func newVerifier(st *store, issuer string, vs vset, vb vbuild) *op.JWTProfileVerifier {
-	var f func(*oidc.JWTTokenRequest) error // nil = no subject check at all
-	switch vb.sub {
+// checkFunc: the Go function of a subject check (nil = no check at all)
+func checkFunc(sub, only string) func(*oidc.JWTTokenRequest) error {
+	switch sub {
 	case "default":
-		f = op.SubjectIsIssuer
+		return op.SubjectIsIssuer
 	case "any":
-		f = func(*oidc.JWTTokenRequest) error { return nil }
+		return func(*oidc.JWTTokenRequest) error { return nil }
 	case "only":
-		only := vb.only
-		f = func(r *oidc.JWTTokenRequest) error {
+		return func(r *oidc.JWTTokenRequest) error {
 			if r.Subject != only {
 				return errors.New("subject not allowed")
 			}
 			return nil
 		}
 	}
+	return nil
+}
+
+// newVerifier builds the verifier the way vb says.
+func newVerifier(st *store, issuer string, vs vset, vb vbuild) *op.JWTProfileVerifier {
+	f := checkFunc(vb.sub, vb.only) // nil = no subject check at all
 	if vb.ctor == "literal" {
 		v := &op.JWTProfileVerifier{Verifier: oidc.Verifier{Issuer: issuer, MaxAgeIAT: vs.maxAge, Offset: vs.offset}, Storage: st}
 		if f != nil || vb.via == 2 {
@@ -946,7 +990,14 @@ func newVerifier(st *store, issuer string, vs vset, vb vbuild) *op.JWTProfileVer
 		return v
 	}
 	var opts []op.JWTProfileVerifierOption
-	if vb.via == 1 || (vb.via == 0 && vb.sub != "default") {
+	for _, p := range vb.pre { // via 3: options passed before the effective one
+		if strings.HasPrefix(p, "only:") {
+			opts = append(opts, op.SubjectCheck(checkFunc("only", strings.TrimPrefix(p, "only:"))))
+		} else {
+			opts = append(opts, op.SubjectCheck(checkFunc(p, "")))
+		}
+	}
+	if vb.via == 1 || vb.via == 3 || (vb.via == 0 && vb.sub != "default") {
 		opts = append(opts, op.SubjectCheck(f))
 	}
 	var v *op.JWTProfileVerifier
@@ -1139,7 +1190,7 @@ func assertionCase(r drv.Rand, w *emit.Writer, wd world, bump func(string)) {
 		if vb.sub != "only" {
 			vb.only = ""
 		}
-		vb.via = r.IntN(3)
+		vb.via = r.IntN(4)
 	}
 	if cycle == "" {
 		tags = append(tags, "cycle=none")
@@ -1333,8 +1384,9 @@ func assertionCase(r drv.Rand, w *emit.Writer, wd world, bump func(string)) {
 	if !router {
 		vb.ctor = drv.Pick(r, []string{"storage", "storage", "keyset", "keyset", "literal"})
 		if !subMatrix {
-			vb.via = r.IntN(3)
+			vb.via = r.IntN(4)
 		}
+		preChecks(r, &vb)
 	}
 	tags = append(tags, "ctor="+vb.ctor, "subject_check="+vb.sub, fmt.Sprintf("check_via=%d", vb.via), fmt.Sprintf("subject_matrix=%v", subMatrix))
 	st, v := sharedVerifier(issuer, vs, vb, regs, wd.clients)
@@ -1373,7 +1425,7 @@ func assertionCase(r drv.Rand, w *emit.Writer, wd world, bump func(string)) {
 // by an in-process RoundTripper (which also serves the discovery document) and the
 // assertion is taken from the captured form.
 
-var helperPaths = []string{"SignedJWTProfileAssertion", "GenerateJWTProfileToken", "AssertionStringFromFileData",
+var helperPaths = []string{"SignedJWTProfileAssertion", "GenerateJWTProfileToken", "AssertionStringFromFileData", "AssertionFromFileData", "AssertionFromKeyJSON",
 	"profile.TokenSource", "profile.TokenSource.discover", "profile.TokenSource.keyfiledata", "profile.TokenSource.keyfile",
 	"tokenexchange.JWTProfile", "rs.Introspect", "rs.Introspect.keyfile", "rp.DeviceAuthorization", "rp.CodeExchangeHandler", "rp.CodeExchangeHandler"}
 
@@ -1433,11 +1485,91 @@ type helperInst struct {
 	aud    []string // nil: the helper derives the audience from its issuer
 	call   func(n int) (string, error)
 	calls  int
-	first  time.Time // start of the first call
+	first  time.Time   // start of the first call
+	plan   []helperOpt // assertion options of call n = plan[n % len(plan)] (paths that take oidc.AssertionOption only)
+	asked  helperOpt   // the options of the last call
+}
+
+// helperOpt: the assertion options the caller passes to the oidc.NewJWTProfileAssertion...
+// family (the only helpers that take any): a delegated subject and / or custom claims.
+type helperOpt struct {
+	dsub   *string // oidc.JWTProfileDelegatedSubject(*dsub); nil = option not passed
+	custom int     // 0: none; 1: oidc.JWTProfileCustomClaim with claims of its own; 2: ... named like registered claims (dropped / overwritten by the registered ones)
+}
+
+func (o helperOpt) options() []oidc.AssertionOption {
+	var out []oidc.AssertionOption
+	switch o.custom {
+	case 1:
+		out = append(out, oidc.JWTProfileCustomClaim("jti", "j-1"), oidc.JWTProfileCustomClaim("azp", "someone"))
+	case 2:
+		out = append(out, oidc.JWTProfileCustomClaim("sub", "intruder"), oidc.JWTProfileCustomClaim("ISS", "c-beta"), oidc.JWTProfileCustomClaim("Aud", "https://other.example.com"))
+	}
+	if o.dsub != nil {
+		out = append(out, oidc.JWTProfileDelegatedSubject(*o.dsub))
+	}
+	if o.custom == 1 { // an option after the delegation as well
+		out = append(out, oidc.JWTProfileCustomClaim("delegated", o.dsub != nil))
+	}
+	return out
+}
+
+func (o helperOpt) class(client string) string {
+	c := "none"
+	switch {
+	case o.dsub == nil:
+	case *o.dsub == client:
+		c = "self"
+	case *o.dsub == "":
+		c = "empty"
+	case strings.EqualFold(*o.dsub, client) || strings.HasPrefix(*o.dsub, client) || strings.HasPrefix(client, *o.dsub):
+		c = "near_client"
+	case strings.HasPrefix(*o.dsub, "c-") || strings.HasPrefix(*o.dsub, "C-"):
+		c = "other_client"
+	default:
+		c = "user"
+	}
+	return c
+}
+
+var optionPaths = []string{"GenerateJWTProfileToken", "AssertionStringFromFileData", "AssertionFromFileData", "AssertionFromKeyJSON"}
+
+func takesOptions(path string) bool {
+	for _, p := range optionPaths {
+		if p == path {
+			return true
+		}
+	}
+	return false
+}
+
+// optionPlan: what the calls on one instance of an option-taking helper path ask for, call by
+// call (delegation to a user / another registered client / a near-miss of the client / the
+// client itself / the empty subject, or no delegation; with and without custom claims)
+func optionPlan(r drv.Rand, client string) []helperOpt {
+	var plan []helperOpt
+	for k := 1 + r.IntN(3); k > 0; k-- {
+		var o helperOpt
+		if r.Chance(3, 4) {
+			d := drv.Pick(r, []string{"user-1", "user-1", "someone", "someone", "c-beta", "c-gamma", "C-ALPHA", "c-beta2", client, "", strings.ToUpper(client), client + "0"})
+			o.dsub = &d
+		}
+		o.custom = []int{0, 0, 0, 1, 1, 2}[r.IntN(6)]
+		plan = append(plan, o)
+	}
+	return plan
+}
+
+func (in *helperInst) optAt(n int) helperOpt {
+	if len(in.plan) == 0 {
+		return helperOpt{}
+	}
+	return in.plan[n%len(in.plan)]
 }
 
 var helperPool []*helperInst
 var helperCreated int
+var optionCreated int
 
 func keyFileJSON(cd cand) []byte {
 	return must(json.Marshal(map[string]string{"type": "serviceaccount", "keyId": cd.kid, "key": string(cd.key.pem), "userId": cd.client, "clientId": cd.client}))
@@ -1455,13 +1587,16 @@ func keyFilePath(cd cand) (path string, rm func(), err error) {
 }
 
 // newHelperInst builds the long-lived object of one helper path (discovery, if any, happens here).
-func newHelperInst(which, issuer string, aud []string, cd cand) (*helperInst, error) {
+func newHelperInst(which, issuer string, aud []string, cd cand, plan []helperOpt) (*helperInst, error) {
 	ctx, cancel := context.WithTimeout(context.Background(), 5*time.Second)
 	defer cancel() // "the passed context is only used for the call to the Discover endpoint"
 	ct := &capTransport{issuer: issuer}
 	hc := &http.Client{Transport: ct, Timeout: 5 * time.Second}
 	tokenURL := issuer + "/oauth/token"
 	in := &helperInst{path: which, cd: cd, issuer: issuer}
+	if takesOptions(which) {
+		in.plan = plan
+	}
 	callCtx := func() (context.Context, context.CancelFunc) { return context.WithTimeout(context.Background(), 5*time.Second) }
 	sent := func(do func(ctx context.Context)) (string, error) {
 		from := len(ct.forms)
@@ -1480,13 +1615,39 @@ func newHelperInst(which, issuer string, aud []string, cd cand) (*helperInst, er
 		in.call = func(int) (string, error) { return client.SignedJWTProfileAssertion(cd.client, aud, time.Hour, signer) }
 	case "GenerateJWTProfileToken": // one-shot helpers: nothing lives between two calls
 		in.aud = aud
-		in.call = func(int) (string, error) {
-			return oidc.GenerateJWTProfileToken(oidc.NewJWTProfileAssertion(cd.client, cd.kid, aud, cd.key.pem))
+		in.call = func(n int) (string, error) {
+			return oidc.GenerateJWTProfileToken(oidc.NewJWTProfileAssertion(cd.client, cd.kid, aud, cd.key.pem, in.optAt(n).options()...))
 		}
 	case "AssertionStringFromFileData":
 		in.aud = aud
 		data := keyFileJSON(cd)
-		in.call = func(int) (string, error) { return oidc.NewJWTProfileAssertionStringFromFileData(data, aud) }
+		in.call = func(n int) (string, error) {
+			return oidc.NewJWTProfileAssertionStringFromFileData(data, aud, in.optAt(n).options()...)
+		}
+	case "AssertionFromFileData":
+		in.aud = aud
+		data := keyFileJSON(cd)
+		in.call = func(n int) (string, error) {
+			a, err := oidc.NewJWTProfileAssertionFromFileData(data, aud, in.optAt(n).options()...)
+			if err != nil {
+				return "", err
+			}
+			return oidc.GenerateJWTProfileToken(a)
+		}
+	case "AssertionFromKeyJSON": // the key file is read at every call
+		in.aud = aud
+		in.call = func(n int) (string, error) {
+			path, rm, err := keyFilePath(cd)
+			defer rm()
+			if err != nil {
+				return "", err
+			}
+			a, err := oidc.NewJWTProfileAssertionFromKeyJSON(path, aud, in.optAt(n).options()...)
+			if err != nil {
+				return "", err
+			}
+			return oidc.GenerateJWTProfileToken(a)
+		}
 	case "profile.TokenSource", "profile.TokenSource.discover", "profile.TokenSource.keyfiledata", "profile.TokenSource.keyfile":
 		var ts profile.TokenSource
 		var err error
@@ -1592,6 +1753,7 @@ func newHelperInst(which, issuer string, aud []string, cd cand) (*helperInst, er
 func (in *helperInst) next() (tok string, h0, h1 int64, err error) {
 	start := time.Now()
 	h0 = start.UnixNano()
+	in.asked = in.optAt(in.calls)
 	p := drv.Catch(func() { tok, err = in.call(in.calls) })
 	h1 = time.Now().UnixNano()
 	if p != "" {
@@ -1632,10 +1794,19 @@ func helperCands(wd world) []cand {
 // helperCase: ONE call on a long-lived helper instance (a new one, or - half of the time -
 // one that already served earlier cases of this run); the assertion that call put on the
 // wire is presented to the provider side.
-func helperCase(r drv.Rand, w *emit.Writer, wd world, bump func(string)) {
+func helperCase(r drv.Rand, w *emit.Writer, wd world, bump func(string), optionStratum bool) {
 	var in *helperInst
-	if len(helperPool) > 0 && r.Bool() {
-		in = drv.Pick(r, helperPool)
+	pool := helperPool
+	if optionStratum { // only the helper paths that take assertion options
+		pool = nil
+		for _, x := range helperPool {
+			if takesOptions(x.path) {
+				pool = append(pool, x)
+			}
+		}
+	}
+	if len(pool) > 0 && r.Bool() {
+		in = drv.Pick(r, pool)
 	} else {
 		issuer := drv.Pick(r, issuers)
 		if r.Chance(4, 10) {
@@ -1650,8 +1821,14 @@ func helperCase(r drv.Rand, w *emit.Writer, wd world, bump func(string)) {
 			helperCreated = r.IntN(len(helperPaths))
 		}
 		which, cd := helperPaths[helperCreated%len(helperPaths)], drv.Pick(r, helperCands(wd)) // every path gets its instances
-		helperCreated++
-		p := drv.Catch(func() { in, err = newHelperInst(which, issuer, aud, cd) })
+		if optionStratum {
+			which = optionPaths[optionCreated%len(optionPaths)]
+			optionCreated++
+		} else {
+			helperCreated++
+		}
+		plan := optionPlan(r, cd.client)
+		p := drv.Catch(func() { in, err = newHelperInst(which, issuer, aud, cd, plan) })
 		if p != "" || err != nil || in == nil {
 			bump("helper_sign_failed")
 			return
@@ -1740,8 +1917,18 @@ func presentHelper(r drv.Rand, w *emit.Writer, wd world, bump func(string), in *
 	d := sigDesc{true, hdr.Alg, hdr.Kid, cd.key.id, true}
 	c := claimsD{pl.Iss, pl.Sub, pl.Aud, pl.Iat, pl.Exp}
 	vb := stdBuild
+	asked := in.asked
 	if !router {
-		vb = vbuild{ctor: drv.Pick(r, []string{"storage", "keyset", "literal"}), sub: drv.Pick(r, []string{"default", "default", "any"}), via: r.IntN(3)}
+		vb = vbuild{ctor: drv.Pick(r, []string{"storage", "storage", "keyset", "keyset", "literal"}), sub: drv.Pick(r, []string{"default", "default", "any", "only"}), via: r.IntN(4)}
+		want := cd.client // the subject the helper was asked to write
+		if asked.dsub != nil {
+			want = *asked.dsub
+			vb.sub = drv.Pick(r, []string{"any", "any", "any", "only", "only", "only", "default", "only"})
+		}
+		if vb.sub == "only" { // a custom check for exactly one subject: the asked one (3/4) or another
+			vb.only = drv.Pick(r, []string{want, want, want, "someone-else"})
+		}
+		preChecks(r, &vb)
 	}
 	st, v := sharedVerifier(issuer, vs, vb, wd.regs, wd.clients)
 	if router {
@@ -1760,14 +1947,18 @@ func presentHelper(r drv.Rand, w *emit.Writer, wd world, bump func(string), in *
 	if in.calls <= 2 {
 		nth = fmt.Sprint(in.calls)
 	}
-	hterm := emit.Some(emit.Ctor("mkH", emit.Z(h0), emit.Z(h1), emit.Z(3600)))
+	dterm := emit.None
+	if asked.dsub != nil {
+		dterm = emit.Some(emit.Str(*asked.dsub))
+	}
+	hterm := emit.Some(emit.Ctor("mkH", emit.Z(h0), emit.Z(h1), emit.Z(3600), emit.Str(cd.client), dterm))
 	inp := emit.Ctor("IAssert", entryTerm, hterm, vTerm(issuer, vs, vb), regsTerm(wd.regs), clientsTerm(wd.clients), emit.Z(t0), emit.Z(t1),
 		emit.Ctor("TJws", d.term(), c.term()))
 	w.Add(emit.Case{Input: inp, Observed: obs,
-		Tags: append([]string{"kind=assertion", "entry=" + entry, "helper=1", "helperfn=" + in.path, "keytype=" + cd.key.kind, "ctor="+vb.ctor, "subject_check="+vb.sub,
-			"helper_call=" + nth, fmt.Sprintf("after_pause=%v", afterPause), fmt.Sprintf("short_max_age=%v", vs.maxAge != 0 && vs.maxAge < time.Minute)}, rtags...),
+		Tags: append([]string{"kind=assertion", "entry=" + entry, "helper=1", "helperfn=" + in.path, "keytype=" + cd.key.kind, "ctor="+vb.ctor, "subject_check="+vb.sub, fmt.Sprintf("check_via=%d", vb.via),
+			"asked_sub="+asked.class(cd.client), fmt.Sprintf("custom_claims=%d", asked.custom), "helper_call=" + nth, fmt.Sprintf("after_pause=%v", afterPause), fmt.Sprintf("short_max_age=%v", vs.maxAge != 0 && vs.maxAge < time.Minute)}, rtags...),
 		Human: map[string]any{"entry": entryTerm, "token": tok, "issuer": issuer, "helper": in.path, "client": cd.client, "kid": cd.kid, "key": cd.key.id,
-			"call_number_on_instance": in.calls, "since_first_call": time.Duration(h0 - in.first.UnixNano()).String(), "max_age": vs.maxAge.String(), "offset": vs.offset.String(),
+			"verifier_built": vb.key(), "asked_subject": asked.dsub, "call_number_on_instance": in.calls, "since_first_call": time.Duration(h0 - in.first.UnixNano()).String(), "max_age": vs.maxAge.String(), "offset": vs.offset.String(),
 			"claims": fmt.Sprintf("%+v", c), "sig": fmt.Sprintf("%+v", d)}})
 }
 
